@@ -342,6 +342,16 @@ func PrimitiveSyntax(p dsl.PrimitiveDefinition) string {
 
 func WriteComment(w *formatting.IndentedWriter, comment string) {
 	comment = strings.TrimSpace(comment)
+	if strings.Contains(comment, "\\") {
+		// a line comment that ends in a backslash would swallow the next line of code
+		lines := strings.Split(comment, "\n")
+		for i, line := range lines {
+			if strings.HasSuffix(strings.TrimRight(line, " \t"), "\\") {
+				lines[i] = strings.TrimRight(line, " \t") + " ."
+			}
+		}
+		comment = strings.Join(lines, "\n")
+	}
 	if comment != "" {
 		w = formatting.NewIndentedWriter(w, "// ").Indent()
 		w.WriteStringln(comment)
